@@ -9,14 +9,16 @@ import (
 var sides = [2]string{"c", "s"}
 
 type genState struct {
-	r       *hx.RNG
-	profile string
-	open    [2]bool   // a header block is open in the frames of this side
-	openSid [2]int
-	ended   [2]map[int]bool
-	streams []int
-	nextSid int
-	big     bool
+	r          *hx.RNG
+	profile    string
+	open       [2]bool // a header block is open in the frames of this side
+	openSid    [2]int
+	ended      [2]map[int]bool
+	streams    []int
+	nextSid    int
+	big        bool
+	noOpenPush bool
+	lockstep   bool
 }
 
 func (g *genState) pick(xs ...int) int { return xs[g.r.Intn(len(xs))] }
@@ -32,9 +34,10 @@ func (g *genState) sid() int {
 }
 
 func (g *genState) prio() string {
+	if g.r.Chance(1, 40) {
+		return "0.0.0" // known finding C08-K1: keep it rare
+	}
 	switch g.r.Intn(10) {
-	case 0:
-		return "0.0.0"
 	case 1, 2:
 		return fmt.Sprintf("%d.%d.%d", g.pick(0, 1, 3), g.r.Intn(2), g.pick(0, 15, 255))
 	}
@@ -52,7 +55,7 @@ func (g *genState) data() string {
 	if g.big && g.r.Chance(1, 3) {
 		return fmt.Sprintf("z%d.%d", g.pick(16383, 16384, 16385, 20000, 32769, 40000), g.r.Intn(200))
 	}
-	n := g.pick(0, 0, 1, 2, 5, 10, 31, 100, 255, 256, 1000)
+	n := g.pick(0, 0, 1, 1, 2, 3, 5, 5, 10, 10, 31, 31, 100, 255, 256, 1000)
 	if n <= 32 {
 		return hx.Hex(g.r.Bytes(n))
 	}
@@ -63,6 +66,9 @@ func (g *genState) label() string {
 	y := 0
 	if g.r.Chance(2, 5) {
 		y = 1
+	}
+	if g.lockstep && g.open[1-y] {
+		y = 1 - y // end to end: the fence frames cannot be sent inside an open block
 	}
 	Y := sides[y]
 	if g.open[y] {
@@ -89,10 +95,20 @@ func (g *genState) label() string {
 		if fid == 5 && !g.big {
 			fid = 2
 		}
+		if fid == 6 && (g.noOpenPush || !g.r.Chance(1, 10)) {
+			fid = 9 // known finding C08-K3 (empty fragment): keep it rare
+		}
+		if kind == "U" && !eh {
+			// known finding C08-K2: a continued PUSH_PROMISE stops the relay; keep it rare
+			eh = g.noOpenPush || !g.r.Chance(1, 8)
+		}
 		if !eh {
 			g.open[y], g.openSid[y] = true, s
 		}
-		cut := g.pick(0, 1, 2, 3, 9, 40, 100000)
+		cut := g.pick(1, 1, 2, 3, 9, 40, 100000)
+		if !g.noOpenPush && g.r.Chance(1, 50) {
+			cut = 0
+		}
 		if kind == "H" {
 			if es {
 				g.ended[y][s] = true
@@ -148,8 +164,9 @@ func (g *genState) label() string {
 }
 
 // Gen produces one script (labels only).
-func Gen(r *hx.RNG, profile string, n int, big bool) []string {
-	g := &genState{r: r, profile: profile, nextSid: 1, big: big}
+func Gen(r *hx.RNG, profile string, n int, big, lockstep bool) []string {
+	noOpenPush := lockstep || profile == "c09"
+	g := &genState{r: r, profile: profile, nextSid: 1, big: big, noOpenPush: noOpenPush, lockstep: lockstep}
 	g.ended = [2]map[int]bool{{}, {}}
 	var out []string
 	// frequent opening: the receiver closes its windows first
